@@ -27,7 +27,7 @@ def make_mvn(c, name, batch, N, lazy=True):
     """an arbitrary lazy MultivariateNormal object in its representation (fields seated directly)"""
     ci = c.it.index.get_class(MVN)
     loc = sym_tensor(f"{name}_loc", list(batch) + [N])
-    cov = sym_tensor(f"{name}_cov", list(batch) + [N, N], is_linop=True)
+    cov = sym_tensor(f"{name}_cov", list(batch) + [N, N], is_linop=True, symmetric=True)
     o = VObj(ci, label=name)
     o.fields.update({
         "loc": loc, "_covar": cov, "_islazy": TRUE, "_validate_args": FALSE,
@@ -41,7 +41,7 @@ def make_mtmvn(c, name, batch, n, t, interleaved):
     ci = c.it.index.get_class(MTMVN)
     N = n * t
     loc = sym_tensor(f"{name}_loc", list(batch) + [N])
-    cov = sym_tensor(f"{name}_cov", list(batch) + [N, N], is_linop=True)
+    cov = sym_tensor(f"{name}_cov", list(batch) + [N, N], is_linop=True, symmetric=True)
     o = VObj(ci, label=name)
     o.fields.update({
         "loc": loc, "_covar": cov, "_islazy": TRUE, "_validate_args": FALSE,
